@@ -486,6 +486,12 @@ class ParallelModels:
             gset(st, "tsc_qin_n", g(st, "qin_n") - g(st, "qin_nones"))
             gset(st, "tsc_got", g(st, "qout_got"))
             return None
+        if isinstance(fv, SV) and fv.ty == TSubmitCb and not args and not kwargs:
+            # the optional callback after an `is not None` test (the engine narrows the local to its payload)
+            gset(st, "tsc_n", g(st, "tsc_n") + 1)
+            gset(st, "tsc_qin_n", g(st, "qin_n") - g(st, "qin_nones"))
+            gset(st, "tsc_got", g(st, "qout_got"))
+            return None
         return NotImplemented
 
 
